@@ -45,6 +45,8 @@ def zbool(v):
         return v.card != 0
     if isinstance(v, SObj):
         return True
+    if hasattr(v, "pyvc_bool"):
+        return v.pyvc_bool()
     return bool(v)
 
 
@@ -424,6 +426,9 @@ class Interp:
             h = eng.callee_for(fn.fn)
             if h is not None:
                 return h(self, [recv] + list(args), kwargs)
+            if isinstance(recv, SRef) and fn.fn not in self.contract.inline_ok:
+                raise Unsupported(f"method {fn.name} on abstract reference {recv} has no callee contract "
+                                  f"(dynamic dispatch unknown)")
             return self.call_function(fn.fn, [recv] + list(args), kwargs)
         if isinstance(fn, types.MethodType):
             # bound method of a concrete object
